@@ -203,7 +203,35 @@ func checkPrunePair(s *sut.SUT, cs c15Case) (rule, detail string, jobsDeleted in
 		excluded = true
 	}
 	// H : the same history without the jobs
-	r1 := hist.Replay(s, withoutJobs(cs.Ops), cs.Seed, "NONE")
+	wo := withoutJobs(cs.Ops)
+	r1 := hist.Replay(s, wo, cs.Seed, "NONE")
+	// the jobs consume a few microsecond ticks of the virtual clock, so publish
+	// times differ by microseconds between the twins while a Seek names an
+	// absolute time: a seek that lands within a millisecond of a publish time
+	// may fall on different sides of it in the two runs - compare up to there
+	for i, o := range wo {
+		if o.K != hist.OpSeekTime {
+			continue
+		}
+		at := sut.Epoch.Add(time.Duration(o.At))
+		var pubs []time.Time
+		for _, mdl := range []*hist.Model{r1.M, r2.M} {
+			for _, msg := range mdl.Msgs {
+				pubs = append(pubs, msg.Pub)
+			}
+			for _, sb := range mdl.AllSubs {
+				for _, dl := range sb.Dels {
+					pubs = append(pubs, dl.Pub) // forwards carry their own time
+				}
+			}
+		}
+		for _, pt := range pubs {
+			if d := pt.Sub(at); d > -time.Millisecond && d < time.Millisecond && (limit < 0 || i < limit) {
+				limit = i
+				stats.C.Class("pairs-compared-up-to-a-seek-on-a-publish-time", 1)
+			}
+		}
+	}
 	if d := traceDiff(r1.Trace, trace2, limit); d != "" {
 		return "client-visible-difference", d, jobsDeleted, excluded
 	}
